@@ -22,8 +22,8 @@ fn classify(src: &str, accepted_by_impl: bool) -> String {
                     }
                 }
             }
-            // a description in front of `fragment on T …`: fragment_definition bumps whatever token is current as the
-            // `fragment` keyword (here the string) and then reads `fragment` as the fragment's name
+            // a description in front of `fragment on T …` (repaired): fragment_definition bumped whatever token was current as the
+            // `fragment` keyword (here the string) and then read `fragment` as the fragment's name
             for w in t.windows(3) {
                 if let (Tk::Str, Tk::Name(a), Tk::Name(b)) = (&w[0], &w[1], &w[2]) {
                     if a == "fragment" && b == "on" { return "accepts-description-before-fragment".into(); }
